@@ -40,7 +40,7 @@ void harness(void)
     __CPROVER_assert(rl.state == 0 && rl.last == 0 && rl.history_space == NULL && rl.curhist == 0 && rl.headhist == 0, "init: phase 0, no pairing memory, no history, head = browse = 0");
     readline_history_init(&rl, hist, hsize);
     __CPROVER_assert(rl.history_space == hist, "history_init: space recorded");
-    __CPROVER_assert(rl.history_size == hsize && rl.history_size >= 1, "history_init: depth recorded as given (>= 1)");
+    __CPROVER_assert((rl.history_size == hsize || (hsize > 255 && rl.history_size == 255)) && rl.history_size >= 1, "history_init: depth recorded as given (>= 1), or the largest depth the uint8_t indices can address");
     __CPROVER_assert(hist[off] == 0, "history_init: every byte of every entry is NUL (ghost slot, ghost index)");
     __CPROVER_assert(rl.line.buf == buf && rl.line.cap == cap && rl.line.len == 0 && rl.line.cursor == 0 && rl.headhist < rl.history_size && rl.curhist <= rl.history_size, "RL established");
     __CPROVER_assert(buf[k] == old_k, "line buffer content untouched");
